@@ -38,7 +38,7 @@ NUMBERS = [0, 1, -1, 2, 3.0, -8, 64, 0.5, -2.5, -0.0, 1e-3, 999999.5, -1000000]
 TEXTS = ['', 'abc', 'ABC', 'Abd', 'a_c', '3', ' 3 ', '1e2', '-0.5', 'TRUE', '\u00df', 'ss']     # (sharp s: lower() and casefold() differ)
 POOL = NUMBERS + TEXTS + [True, False, None] + ERR
 # texts on which only the cheap routes run: python-only / locale-only numeric spellings
-HOSTILE_TEXT = ['inf', 'nan', '-Infinity', 'false', '1_0', '0x10', '1,000', '$3', '3%', '1/2',
+HOSTILE_TEXT = ['inf', 'nan', '-Infinity', 'false', '1_0', '1_000', '1_0.5', '0x10', '1,000', '$3', '3%', '1/2',
                 '１２', '+3', '3.', '.5', '1E+2', '- 3', '3 4', '1e', 'e1',
                 # characters that str.isdigit() accepts and int() rejects, digits of another script
                 '\u00b2', '\u2460', '\u00b3\u00b9', '\u0663', '\u00bd',
@@ -297,7 +297,7 @@ def show(got):
         return f'raised {got[1]}'
     v = got[1]
     if isinstance(v, int) and not isinstance(v, bool) and abs(v) > 10 ** 30:
-        return f'<int of {len(str(abs(v)))} digits>'
+        return f'<int of about {int(abs(v).bit_length() * 0.30103) + 1} digits>'
     return f'{v!r} ({type(v).__name__})'
 
 
